@@ -197,6 +197,27 @@ def scratch_base() -> str:
     return tempfile.gettempdir()
 
 
+_frozen = False
+
+
+def settle():
+    """Run the cyclic garbage collector now.  File objects that the library leaves to the
+    collector (a refused open leaks its h5py files until the exception's reference cycle is
+    collected) change what a later open sees ('file exists' as OSError instead of
+    FileExistsError while HDF5 still holds the file).  When that happens must be a function
+    of the operation sequence, not of how much the process allocated before this run, so
+    every engine settles before each step.  Objects alive after warm-up are frozen once to
+    keep the collections cheap."""
+    import gc
+
+    global _frozen
+    if not _frozen:
+        gc.collect()
+        gc.freeze()
+        _frozen = True
+    gc.collect()
+
+
 def sut_exception_violation(exc, prop, step):
     """An exception that escaped from SUT code during an observation the harness expects
     to work is an observable failure (violation), not a harness error.  Returns a violation
